@@ -86,6 +86,11 @@ def _elab_mgr(m: Mgr, ctx: Context) -> None:
 
 @unwrap_context.register(Mgr)
 def _unwrap_mgr(m: Mgr, ctx: Context) -> Any:
+    if STATE["redirect"]:
+        # the elaborate hook has replaced context.obj by a Shadow: the unwrap step must be
+        # dispatched on what the context holds NOW, so this hook must not be consulted
+        LOG.append({"k": m.k, "stale_unwrap": True})
+        return None
     return _next(m.k, "cls")
 
 
@@ -179,6 +184,8 @@ def case(n: Any, ending: str, fam: str, redirect: bool, exiting: bool, entry: in
     objs = STATE["objs"]
     last = objs[nn]
     if fam == "cls":
+        if any(r.get("stale_unwrap") for r in LOG):
+            return "unwrap_context was dispatched on the manager that elaborate_context had already replaced"
         el = [r for r in LOG if "gen_hook" not in r]
         if [r["k"] for r in el] != list(range(nn + 1)):
             return f"elaborate_context ran on {[r['k'] for r in el][:8]}.., expected 0..{nn}"
